@@ -1,6 +1,7 @@
 package main
 
 import (
+	"strings"
 	"fmt"
 	"go/types"
 	"unicode"
@@ -254,6 +255,37 @@ func init() {
 		zz + "FSSymlink":   nop,
 		zz + "FSEnterTemp": nop,
 		zz + "FakeCommand": func(w *Worker, _ *ssa.Function, _ []Value, _ ssa.CallInstruction) Value { return w.strConst("") },
+		"os.OpenFile": func(w *Worker, _ *ssa.Function, args []Value, site ssa.CallInstruction) Value {
+			name, ok := concreteStr(args[0].(StrV))
+			flag := args[1].(*Term)
+			if !ok || !flag.IsConst() {
+				w.fail("os.OpenFile with a symbolic name or flag")
+			}
+			const oAppend, oTrunc, oCreate, oAcc = 0x400, 0x200, 0x40, 0x3
+			fl := int(flag.Val)
+			if fl&oAcc == 0 {
+				w.fail("os.OpenFile for reading is not modelled")
+			}
+			_, existed := w.vfsHas(name)
+			fn := w.P.funcByName(modPath+"/src/zzv", "M_os_OpenFileCheck")
+			err := w.call(&FuncV{fn: fn}, []Value{args[0], args[1]}, site)
+			if iv, isI := err.(IfaceV); isI && iv.t != nil {
+				return TupleV{Ptr{}, err}
+			}
+			if fl&oAppend == 0 && fl&oTrunc == 0 && existed {
+				w.fail("os.OpenFile: writing into an existing file without O_APPEND or O_TRUNC is not modelled")
+			}
+			return TupleV{OpaqueV{"osfile:" + name}, IfaceV{}}
+		},
+		"(*os.File).WriteString": func(w *Worker, _ *ssa.Function, args []Value, site ssa.CallInstruction) Value {
+			return w.fileAppend(args[0], w.strToBytes(args[1].(StrV)), site)
+		},
+		"(*os.File).Write": func(w *Worker, _ *ssa.Function, args []Value, site ssa.CallInstruction) Value {
+			return w.fileAppend(args[0], args[1], site)
+		},
+		"(*os.File).Close": func(w *Worker, _ *ssa.Function, args []Value, _ ssa.CallInstruction) Value {
+			return IfaceV{}
+		},
 		"os.Getwd": func(w *Worker, _ *ssa.Function, _ []Value, _ ssa.CallInstruction) Value {
 			return TupleV{w.strConst("/"), IfaceV{}}
 		},
@@ -631,4 +663,41 @@ func (w *Worker) sameShallow(x, y Value) *Term {
 		return b.Bool(y == nil)
 	}
 	return w.equal(x, y)
+}
+
+
+func (w *Worker) vfsHas(name string) (Value, bool) {
+	z := w.P.pkgs[modPath+"/src/zzv"]
+	g, _ := z.Members["vfs"].(*ssa.Global)
+	w.ensureInit(z)
+	m, _ := (*w.globals[g]).(*MapV)
+	if m == nil {
+		return nil, false
+	}
+	for _, e := range m.entries {
+		if k, ok := e.k.(StrV); ok {
+			if ks, c := concreteStr(k); c && ks == name {
+				return e.v, true
+			}
+		}
+	}
+	return nil, false
+}
+
+func (w *Worker) strToBytes(s StrV) Value {
+	out := make([]Value, len(s.b))
+	for i, t := range s.b {
+		out[i] = t
+	}
+	return SliceV{s: out}
+}
+
+func (w *Worker) fileAppend(f Value, data Value, site ssa.CallInstruction) Value {
+	o, ok := f.(OpaqueV)
+	if !ok || !strings.HasPrefix(o.desc, "osfile:") {
+		w.fail("write to a file not opened through the modelled os.OpenFile")
+	}
+	fn := w.P.funcByName(modPath+"/src/zzv", "M_os_FileAppend")
+	n := w.call(&FuncV{fn: fn}, []Value{w.strConst(o.desc[len("osfile:"):]), data}, site)
+	return TupleV{n, IfaceV{}}
 }
